@@ -246,5 +246,7 @@ def run(c, prog):
     C02.rule_twopass(core.Alias(c, "C05"), prog)     # `null` iff empty reference; forward references; dictionary defines every hash used
     C02.rule_name(core.Alias(c, "C05"), prog)
     from . import C02_type
+    from . import C02_tok
+    C02_tok.run(core.Alias(c, "C05"), prog)     # token-stream types: separator, piece order
     C02_type.run(core.Alias(c, "C05"), prog)    # element names / layout written = element names / layout read, per type        # CDATA choice; adjacent text runs joined (ProtectedString / `]]>` splitting)
     c.not_decided += ["well-formedness as judged by an independent XML parser (xml-rs trusted)", "numeric spellings beyond INF/-INF/NAN", "indentation handling inside xml-rs"]
